@@ -26,6 +26,11 @@ pub fn components() -> Vec<String> {
     // many separate pieces on every row (more spans than any fixed look-back window)
     let many: String = (0..40).map(|i| char::from(b'a' + (i % 26) as u8).to_string()).collect::<Vec<_>>().join(" ");
     v.push(format!("{}\n{}\n{}", many, many, many));
+    // a catalogue circle with something attached (a tail, a label): rendered at several places in one document
+    v.push(" .-.\n(   )---\n `-'".into());
+    v.push("  .--.\n ( ab )-->\n  `--'".into());
+    // quoted text with a zero-width character (blanking width)
+    v.push("\"e\u{301}tat\" x\n+--+\n|  |\n+--+".into());
     v.push("()()".into());
     v.push(" ()()".into());
     v.push("()\n()".into());
